@@ -139,6 +139,8 @@ func newGenericObjectSetController(
 		},
 	)
 
+	sliceLoadReconciler := newObjectSliceLoadReconciler(scheme, client, newObjectSlice)
+	phasesReconciler.sliceLoader = sliceLoadReconciler
 	controller.teardownHandler = phasesReconciler
 
 	controller.reconciler = []reconciler{
@@ -147,7 +149,7 @@ func newGenericObjectSetController(
 			client:       client,
 			newObjectSet: newObjectSet,
 		},
-		newObjectSliceLoadReconciler(scheme, client, newObjectSlice),
+		sliceLoadReconciler,
 		phasesReconciler,
 	}
 
